@@ -55,6 +55,12 @@ def run(ctx, deps=True):
             note("R2|type|" + who, ok, "accepting paths %s signed.type == 'root' for the %s root" % ("all established" if ok else "exist without", who))
         vers = [f for f in p.facts if f[0] == "eq" and mentions(f, tv) and mentions(f, uv)]
         ok = any(linear_cmp("==", f[1], f[2]) == want_ver for f in vers)
+        if not ok:
+            # not (new - trusted < 1) and not (new - trusted > 1): both bounds together are the equality
+            cmps = [linear_cmp(f[1], f[2], f[3]) for f in p.facts if f[0] == "cmp" and mentions(f, tv) and mentions(f, uv)]
+            lo = linear_cmp("<=", C(1), ("binop", "-", uv, tv))  # 1 <= new - trusted
+            hi = linear_cmp("<=", ("binop", "-", uv, tv), C(1))  # new - trusted <= 1
+            ok = lo in cmps and hi in cmps
         related = [show_fact(f) for f in p.facts if f[0] in ("eq", "ne", "cmp") and mentions(f, tv) and mentions(f, uv)]
         note("R3|version", ok, "accepting paths %s new.version == trusted.version + 1" % ("all established" if ok else "exist that did not establish"), {"version comparisons on the path": related})
         calls = call_events(p, VSIG)
@@ -97,6 +103,24 @@ def run(ctx, deps=True):
         c01.run(ctx.sub("DEP-C01"))
 
 
+def _excludes_increment(f, tv, uv):
+    """a comparison of the two versions that cannot hold when new == trusted + 1 (so a rejection
+    guarded by it rejects no proper update)"""
+    lf = linear_cmp("!=" if f[0] == "ne" else f[1], *(f[1:3] if f[0] == "ne" else f[2:4]))
+    if lf is None:
+        return False
+    op, co, c = lf
+    co = dict(co)
+    if set(co) - {tv, uv}:
+        return False
+    cu, ct = co.get(uv, 0), co.get(tv, 0)
+    if cu + ct != 0:
+        return False  # depends on the version itself, not only on the gap
+    val = cu + c  # value of the form at new = trusted + 1
+    holds = {"==": val == 0, "!=": val != 0, "<": val < 0, "<=": val <= 0}[op]
+    return not holds
+
+
 def _cause(eng, p, x, T, U, tv, uv, pairs):
     from . import refuted_at_defaults
 
@@ -111,7 +135,10 @@ def _cause(eng, p, x, T, U, tv, uv, pairs):
                 return "%s root declares type root" % who
             if ("nothas", SubC(X, "signed", "delegations"), C("root")) in facts:
                 return "%s root delegates 'root' (explicit guard)" % who
-        if any(f[0] == "ne" and mentions(f, tv) and mentions(f, uv) for f in facts):
+        tt, ut = SubC(T, "signed", "type"), SubC(U, "signed", "type")
+        if ("ne", tt, ut) in facts or ("ne", ut, tt) in facts:
+            return "both roots declare type root (the two declared types differ)"
+        if any(f[0] in ("ne", "cmp") and mentions(f, tv) and mentions(f, uv) and _excludes_increment(f, tv, uv) for f in facts):
             return "new.version == trusted.version + 1"
         return None
     for ev in flat(p):
